@@ -679,7 +679,7 @@ Qed.
 (* min(max(rc, lo), hi) lies in [lo, hi] whatever Faker returned *)
 Lemma clamp_between rc lo hi tz :
   lo <= hi -> lo <= fst (clamp rc lo hi tz) <= hi /\
-              (snd (clamp rc lo hi tz) = tz \/ snd (clamp rc lo hi tz) = Some 0).
+              (snd (clamp rc lo hi tz) = tz \/ snd (clamp rc lo hi tz) = bound_zone tz).
 Proof.
   intros H. unfold clamp.
   destruct (rc <? lo) eqn:E1.
@@ -695,38 +695,38 @@ Proof.
 Qed.
 
 (* THE PROPERTY for datetime_between: every pair of bounds (offsets, fractional seconds, equal),
-   every draw, every presentation zone: start <= v <= end as the instants the user wrote;
-   reversed bounds are a DataGenError *)
-Lemma datetime_between_bounds c s e t num den ps pe :
+   every draw, every presentation zone incl. timezone: False: start <= v <= end as the instants
+   the user wrote; reversed bounds are a DataGenError *)
+Lemma datetime_between_bounds c s e tz num den ps pe :
   parse_datetimespec c s = Ok ps -> parse_datetimespec c e = Ok pe -> 0 <= num < den ->
   (instant pe < instant ps ->
-     forall tz d, exists m, datetime_between c s e tz d den = Err (DGE m)) /\
+     forall d, exists m, datetime_between c s e tz d den = Err (DGE m)) /\
   (instant ps <= instant pe ->
-     exists v o, datetime_between c s e (Some t) (Some num) den = Ok (v, o) /\
-                 instant ps <= v <= instant pe /\ (o = Some t \/ o = Some 0)).
+     exists v o, datetime_between c s e tz (Some num) den = Ok (v, o) /\
+                 instant ps <= v <= instant pe /\ (o = tz \/ o = bound_zone tz)).
 Proof.
   intros Hs He Hnum.
   destruct (datetime_fn_instant c s ps Hs) as (s' & Hds & His & _).
   destruct (datetime_fn_instant c e pe He) as (e' & Hde & Hie & _).
   unfold datetime_between. rewrite Hds, Hde. cbn [bind]. rewrite His, Hie. split.
-  - intros Hlt tz d. destruct (instant pe <? instant ps) eqn:E; [|contra]. eexists; reflexivity.
+  - intros Hlt d. destruct (instant pe <? instant ps) eqn:E; [|contra]. eexists; reflexivity.
   - intros Hle. destruct (instant pe <? instant ps) eqn:E; [contra|].
     cbn [draw_below]. destruct ((0 <=? num) && (num <? den)) eqn:En; [|contra].
     set (rc := faker_dt_between _ _ _ _).
-    destruct (clamp_between rc (instant ps) (instant pe) (Some t) Hle) as (Hb & Ho).
-    exists (fst (clamp rc (instant ps) (instant pe) (Some t))),
-           (snd (clamp rc (instant ps) (instant pe) (Some t))).
+    destruct (clamp_between rc (instant ps) (instant pe) tz Hle) as (Hb & Ho).
+    exists (fst (clamp rc (instant ps) (instant pe) tz)),
+           (snd (clamp rc (instant ps) (instant pe) tz)).
     splits; try lia; try assumption.
     rewrite <- surjective_pairing. reflexivity.
 Qed.
 
 (* on whole-second starts with the end in a later second the clamp is the identity: the value is
    the one Faker drew *)
-Lemma datetime_between_unclamped c s e t num den ps pe :
+Lemma datetime_between_unclamped c s e tz num den ps pe :
   parse_datetimespec c s = Ok ps -> parse_datetimespec c e = Ok pe -> 0 <= num < den ->
   instant ps mod US = 0 -> floor_sec (instant ps) < floor_sec (instant pe) ->
-  datetime_between c s e (Some t) (Some num) den =
-    Ok (faker_dt_between (floor_sec (instant ps)) (floor_sec (instant pe)) num den, Some t).
+  datetime_between c s e tz (Some num) den =
+    Ok (faker_dt_between (floor_sec (instant ps)) (floor_sec (instant pe)) num den, tz).
 Proof.
   intros Hs He Hnum Hwhole Hlater.
   destruct (datetime_fn_instant c s ps Hs) as (s' & Hds & His & _).
@@ -743,21 +743,6 @@ Proof.
   rewrite clamp_id; [reflexivity|]. unfold US in *. lia.
 Qed.
 
-(* KNOWN FINDING C11-K13 (introduced by the clamp): with timezone: False Faker's naive result is
-   compared with the aware bounds: every valid range fails, for every draw *)
-Lemma datetime_between_naive_fails c s e num den ps pe :
-  parse_datetimespec c s = Ok ps -> parse_datetimespec c e = Ok pe -> 0 <= num < den ->
-  instant ps <= instant pe ->
-  datetime_between c s e None (Some num) den = type_error.
-Proof.
-  intros Hs He Hnum Hle.
-  destruct (datetime_fn_instant c s ps Hs) as (s' & Hds & His & _).
-  destruct (datetime_fn_instant c e pe He) as (e' & Hde & Hie & _).
-  unfold datetime_between. rewrite Hds, Hde. cbn [bind]. rewrite His, Hie.
-  destruct (instant pe <? instant ps) eqn:E; [contra|].
-  cbn [draw_below]. destruct ((0 <=? num) && (num <? den)) eqn:En; [reflexivity|contra].
-Qed.
-
 Lemma datetime_between_possible c s e tz num den v :
   0 <= num < den -> run_fn (FDateTime c s e tz) (Some num) den = Ok v ->
   possible (FDateTime c s e tz) v = true.
@@ -771,19 +756,18 @@ Proof.
   destruct (datetime_fn c e) as [e'|] eqn:Ee; cbn [bind] in Edb; [|discriminate].
   destruct (instant e' <? instant s') eqn:E; [discriminate|].
   cbn [draw_below] in Edb. destruct ((0 <=? num) && (num <? den)); [|discriminate].
-  destruct tz as [t|]; [|disc].
   inversion Edb as [Hc]. clear Edb.
   set (rc := faker_dt_between (floor_sec (instant s')) (floor_sec (instant e')) num den) in Hc.
   unfold clamp in Hc. rewrite E in Hc.
-  assert (Ht : (t =? t) = true) by apply Z.eqb_refl.
+  assert (Hrefl : forall x : option Z, option_eqb Z.eqb x x = true).
+  { intros [x|]; cbn [option_eqb]; [apply Z.eqb_refl|reflexivity]. }
   destruct (rc <? instant s') eqn:E1.
-  - inversion Hc; subst us o. cbn [option_eqb].
-    rewrite Z.eqb_refl. rewrite (Z.eqb_refl (instant s')). cbn [orb andb].
+  - inversion Hc; subst us o. rewrite Hrefl, (Z.eqb_refl (instant s')). cbn [orb andb].
     rewrite orb_true_r. rewrite !andb_true_iff. splits; lia.
-  - destruct (instant e' <? rc) eqn:E2; inversion Hc; subst us o; cbn [option_eqb].
-    + rewrite Z.eqb_refl. rewrite (Z.eqb_refl (instant e')). rewrite !orb_true_r.
+  - destruct (instant e' <? rc) eqn:E2; inversion Hc; subst us o.
+    + rewrite (Hrefl (bound_zone tz)), (Z.eqb_refl (instant e')). rewrite !orb_true_r.
       rewrite !andb_true_iff. splits; lia.
-    + rewrite Ht. cbn [orb]. rewrite !andb_true_iff. splits; lia.
+    + rewrite Hrefl. cbn [orb]. rewrite !andb_true_iff. splits; lia.
 Qed.
 
 (* ------------------------------------------------------------------ regressions: the witnesses of
@@ -832,18 +816,12 @@ Lemma regression_zero_probability :
   random_choice (RCChoices [(Some 0, 1); (Some 200, 2)]) (Some 1023) 1024 = Ok 2.
 Proof. split; vm_compute; reflexivity. Qed.
 
-(* K13 witness: 10:00 .. 12:00 with timezone: False *)
-Lemma refuted_timezone_false :
+(* K13: 10:00:00.9 .. 10:00:03 with timezone: False: a naive value inside the bounds; the lowest
+   draw is the (naive) start itself *)
+Lemma regression_timezone_false :
   let c := mkClock 0 0 in
-  let s := mkStamp w_10h None in
-  let e := mkStamp (w_10h + 7200 * US) None in
-  instant s <= instant e /\
-  forall num, 0 <= num < 1024 ->
-    exists x, datetime_between c (SStamp s) (SStamp e) None (Some num) 1024 = Err x.
-Proof.
-  cbv zeta. split; [vm_compute; discriminate|]. intros num Hnum. eexists.
-  apply datetime_between_naive_fails with (ps := mkStamp w_10h (Some 0))
-                                          (pe := mkStamp (w_10h + 7200 * US) (Some 0));
-    try reflexivity; try assumption.
-  vm_compute. discriminate.
-Qed.
+  let s := mkStamp (w_10h + 900000) None in
+  let e := mkStamp (w_10h + 3 * US) None in
+  datetime_between c (SStamp s) (SStamp e) None (Some 0) 1024 = Ok (instant s, None) /\
+  datetime_between c (SStamp s) (SStamp e) None (Some 512) 1024 = Ok (w_10h + 1500000, None).
+Proof. cbv zeta. split; vm_compute; reflexivity. Qed.
